@@ -204,6 +204,7 @@ def run(ctx):
     query_roundtrip_rule(ctx, syn)
     lossless_rule(ctx, syn)
     verbatim_rule(ctx, syn)
+    resulttype_rule(ctx, syn)
 
     # ---------------- keyword tables
     r_kw = ctx.rule("C09.KW", "every keyword a printer can emit is accepted by the parser")
@@ -1055,3 +1056,50 @@ def verbatim_rule(ctx, syn):
                     ctx.report(r, "%s|%s" % (fn.qual, bad), "%s prints an operand through %s: the parser keeps the text between the quotes as it is, so the printed literal parses to a different operand and printing is no fixpoint" % (fn.qual, bad), fn.file, mac.get("l"))
     r.hit("format-arguments", sample={"format_arguments_examined": n})
     ctx.floor(r, n, 40, "format arguments in the query printers")
+
+
+# ---------------------------------------------------------------------- RESULTTYPE
+def resulttype_rule(ctx, syn, rid="C09.RESULTTYPE"):
+    """the keyword table of the parser and that of the printer agree: every `Type` the parsers of SELECT / ADD / DELETE
+    can put into Query.resulttype has a keyword in Query::resulttype_as_str.  A parser that takes the type by name from
+    somewhere else (`Type::try_from`) accepts every type that conversion knows - a query `SELECT VALUE ?x` then parses,
+    prints without a keyword and does not parse again."""
+    r = ctx.rule(rid, "every result type the query parsers can produce has a keyword in the printer's table (resulttype_as_str)")
+    pr = [f for f in syn.fns if f.name == "resulttype_as_str" and (f.self_ty or "").startswith("Query") and f.body is not None]
+    parsers = [f for f in syn.fns if f.name in ("parse_select", "parse_add", "parse_delete", "parse_with_attributes") and (f.self_ty or "").startswith("Query") and f.body is not None]
+    conv = [f for f in syn.fns if f.name == "try_from" and (f.self_ty or "") == "Type" and f.body is not None]
+    if len(pr) != 1 or len(parsers) < 3:
+        ctx.anchor_missing(r, "Query::resulttype_as_str / parse_select / parse_add / parse_delete")
+        return
+    printed = set()
+    for n in walk(pr[0].body):
+        if n.get("k") == "match":
+            for a in n["arms"]:
+                for q in walk(a["pat"]):
+                    if q.get("k") == "pat" and q.get("p") == "path" and len(q.get("path", [])) == 2 and q["path"][0] == "Type":
+                        # an arm that answers None prints nothing
+                        if not (a["body"].get("k") == "path" and a["body"].get("path") == ["None"]):
+                            printed.add(q["path"][1])
+    by_name = set()
+    for f in conv:
+        for n in walk(f.body):
+            if n.get("k") == "path" and len(n.get("path", [])) == 2 and n["path"][0] in ("Self", "Type"):
+                by_name.add(n["path"][1])
+    ctx.functions_analysed.update([pr[0].qual] + [f.qual for f in parsers])
+    n_sites = 0
+    for f in parsers:
+        produced = {}
+        for n in walk(f.body):
+            if n.get("k") == "path" and len(n.get("path", [])) == 2 and n["path"][0] == "Type" and n["path"][1][:1].isupper():
+                produced.setdefault(n["path"][1], n.get("l"))
+            takes_name = (n.get("k") == "call" and n["func"].get("k") == "path" and n["func"]["path"][-2:] in (["Type", "try_from"], ["Type", "from"])) or \
+                         (n.get("k") == "mcall" and n.get("method") in ("try_into", "parse") and "Type" in unparse(n))
+            if takes_name:
+                for v in sorted(by_name):
+                    produced.setdefault(v, n.get("l"))
+        n_sites += len(produced)
+        r.hit(f.qual, sample={"parser": f.qual, "produces": sorted(produced), "printed": sorted(printed)})
+        for v, line in sorted(produced.items()):
+            if v not in printed:
+                ctx.report(r, "%s|%s" % (f.name, v), "%s can produce the result type Type::%s, for which Query::resulttype_as_str has no keyword: such a query is printed as `SELECT  ?x ...`, which the parser refuses (the keyword tables of parser and printer differ)" % (f.qual, v), f.file, line)
+    ctx.floor(r, n_sites, 6, "result types produced by the query parsers")
